@@ -116,7 +116,17 @@ func genLoopScenario(rng *chain.Rng, id int, maxEventRanges int) loopScenario {
 				if b < 0 {
 					b = 0
 				}
-				sc.Events[b] = append(sc.Events[b], b*100+int64(len(sc.Events[b])))
+				n := b*100 + int64(len(sc.Events[b]))
+				// one event in five is one the relayer cannot turn into a claim (relayrig.EventOf): a lock whose recipient
+				// has a wrong bech32 checksum (nonce%100 in 50..74) or a lock of "eth" with a token address (75..99);
+				// the bridge contract accepts both. The loop logs them and goes on with the next event.
+				switch rng.Intn(10) {
+				case 0:
+					n += 50
+				case 1:
+					n += 75
+				}
+				sc.Events[b] = append(sc.Events[b], n)
 			}
 			eventRanges++
 			if kills < 2 {
@@ -295,7 +305,7 @@ func MonLoop(rep *report.Report, sc loopScenario) {
 			}
 			found := false
 			for _, x := range sc.Events[b] {
-				if x == n {
+				if x == n && relayrig.Translatable(n) {
 					found = true
 				}
 			}
@@ -318,6 +328,9 @@ func MonLoop(rep *report.Report, sc loopScenario) {
 				} else {
 					for b := pendingFrom; b <= pendingTo; b++ {
 						for _, n := range sc.Events[b] {
+							if !relayrig.Translatable(n) {
+								continue
+							}
 							if submitted[n] == 0 {
 								rep.Violate("C17/cursor-before-submission", fmt.Sprintf("cursor written as %d but event %d of block %d was never submitted", c, n, b), sc.JSON())
 							}
